@@ -326,7 +326,7 @@ func runC13(c *Ctx) {
 		e.Run()
 	}
 	c.Meta(map[string]interface{}{
-		"rule": "in every state reached by BFS over the contents alphabet (ties guaranteed by the value classes): every single comparison and every And-chain of length 2 ending on an indexed field x {plain, Reverse} x Limit in {0,1,m-1,m,m+1} x terminal pairs over {Collect, One, Assign, AssignOne} on the same search value; oracles: set = reference, non-increasing / non-decreasing in the last field, Limit(n) = prefix of the unlimited sequence, One = head or no-object error, terminals independent of earlier terminals, AssignIndex = stored values in non-increasing order. Non-trivial = states with >= 2 objects.",
+		"rule":    "in every state reached by BFS over the contents alphabet (ties guaranteed by the value classes): every single comparison and every And-chain of length 2 ending on an indexed field x {plain, Reverse} x Limit in {0,1,m-1,m,m+1} x terminal pairs over {Collect, One, Assign, AssignOne} on the same search value; oracles: set = reference, non-increasing / non-decreasing in the last field, Limit(n) = prefix of the unlimited sequence, One = head or no-object error, terminals independent of earlier terminals, AssignIndex = stored values in non-increasing order. Non-trivial = states with >= 2 objects.",
 		"configs": cfgs, "depth": depth,
 	})
 }
